@@ -5,8 +5,10 @@ import json, os, subprocess
 VERIF = os.path.dirname(os.path.dirname(os.path.abspath(__file__)))
 props = [json.loads(l) for l in open(os.path.join(VERIF, 'properties.jsonl'))]
 
-ENC_NOTE = ('Trusted: Coq 8.16.1 kernel (vm_compute, no native_compute), no axioms (Print Assumptions: closed under the global '
-            'context); translator tools/cxx2v.py over clang-14 JSON AST; extraction with ExtrOcamlBasic only + OCaml drivers; '
+ENC_NOTE = ('Trusted: Coq 8.16.1 kernel (vm_compute, no native_compute); no axioms of our own (Print Assumptions: closed under the '
+            'global context) except that the C11b theorems stated over Flocq\'s b32_of_bits / b64_of_bits / B2R depend on the standard '
+            'library\'s ClassicalDedekindReals.sig_not_dec, sig_forall_dec, FunctionalExtensionality.functional_extensionality_dep and '
+            'Classical_Prop.classic (through Flocq 4.1.0 and Reals; their axiom-free cores C11b_core_* are closed); translator tools/cxx2v.py over clang-14 JSON AST; extraction with ExtrOcamlBasic only + OCaml drivers; '
             'harness/enc_diff.cpp; IEEE-754 layout and memcpy/bswap semantics modelled, not verified.')
 ART_NOTE = ('Trusted: Coq 8.16.1 kernel, no axioms; hand-written model coq/Art/ArtModel.v + ArtIter.v tied to the code by running the '
             'extracted model against harness/seq_diff.cpp on db, mutex_db and olc_db for uint64 and byte-string keys (results, scan '
@@ -117,7 +119,9 @@ claimed = {
             'threads (calls atomic, distinct blocks), every block is freed only when no thread registered at its request is still to pass a '
             'quiescent state; C05_immediate: a request is executed at once only when at most one thread is registered. The model is validated '
             'call by call against the implementation; additionally every atomic step inside the calls is a scheduling point of a '
-            'bounded-preemption + random exploration on the real code, which is how defect D5 (now fixed) is exposed.', '5 C05', QSBR_NOTE,
+            'bounded-preemption + random exploration on the real code, which is how defect D5 (now fixed) is exposed. C05b: the 15 state-word '
+            'functions of qsbr_state and qsbr_epoch::advance are regenerated from qsbr.hpp on every run and bridged to the (epoch, T, P) '
+            'arithmetic of the model, including the exact word transitions of register / quiescent / unregister.', '5 C05', QSBR_NOTE,
             'Coq invariant proof over the coarse model + differential correspondence + deterministic schedule exploration of the implementation'),
     'C06': ('proof', 'Coq theorems: pending + freed is a permutation of retired in every history (exactly once, whether the requester runs on, '
             'pauses or exits), the thread count in the state word equals the number of registered threads with P <= T, and after all but one '
@@ -130,7 +134,10 @@ claimed = {
             'fixed length 1..8 returns exactly what an association-list map returns (including leaf identity), never goes out of '
             'bounds, and leaves a well-formed tree holding exactly the map\'s entries; machine-checked refutation for byte keys '
             'sharing more than 7 bytes (K1). The model is tied to all three index classes and both key kinds by differential runs '
-            'with full tree-shape comparison after every operation.', '5 C01', ART_NOTE,
+            'with full tree-shape comparison after every operation. C01b: the key-prefix word arithmetic (length, shared length, cut, prepend, '
+            'construction, indexing; key_prefix and key_prefix_snapshot) is regenerated from art_internal_impl.hpp on every run, with the '
+            'header\'s asserts as side conditions, and bridged by kernel-checked lemmas to the byte-list functions of the model.', '5 C01',
+            ART_NOTE,
             'Coq refinement proof (model -> finite map) + differential correspondence of the extracted model with the implementation'),
     'C02': ('proof', 'Coq theorems: the leaf order of a well-formed tree is the byte-wise key order; scan, scan_from and scan_range '
             'return exactly the entries of the requested interval in order, truncated at the visitor\'s halting call, for every tree, '
@@ -152,7 +159,9 @@ claimed = {
     'C11': ('proof', 'Coq theorems C11_uint/int/float/text/tuple over the encoder model for all values, widths and tuples; signed-integer '
             'and float value expressions are regenerated from the C++ AST on every run and bridged to the model by kernel-checked lemmas '
             '(8/16-bit exhaustively by vm_compute, 32/64-bit by lia); the remaining byte-moving code is tied by running the extracted '
-            'model and the implementation on the same scripts.', '5 C11', ENC_NOTE,
+            'model and the implementation on the same scripts. C11b links the bit-pattern order to IEEE-754 as formalised by Flocq: for non-NaN '
+            'words Bcompare of the decoded binary32/binary64 values is Lt iff the encoder\'s order holds (except -0 < +0, which IEEE equates), '
+            'NaN / infinity / finiteness coincide, and for finite values enc(x) < enc(y) iff B2R x < B2R y.', '5 C11', ENC_NOTE,
             'Coq proof over executable model; model regenerated from C++ AST (leaf expressions) + differential correspondence'),
     'C12': ('proof', 'Coq theorems: integer and float round trips for all values (NaN to canonical quiet NaN), fixed widths, decode of any '
             'fixed-size tuple, and the encoder object shows exactly the encodings since the last reset whatever its capacity history; '
